@@ -2,30 +2,51 @@
   Driver — the model behind a one-line-in, one-line-out protocol.  `driver` reads operations from
   stdin, one per line, `<domain> <op> <args…>`, and prints one canonical answer line per operation.
   Imports the executable model only (no Mathlib), so it links as a native executable.
+  Domains: tab, bits, shp, env, srch, norm, gen, rgt, store (one module ICG/Driver/<Domain>.lean each).
 -/
 import ICG.Driver.Tab
+import ICG.Driver.Bits
+import ICG.Driver.Shp
+import ICG.Driver.Env
+import ICG.Driver.Srch
+import ICG.Driver.Norm
+import ICG.Driver.Gen
+import ICG.Driver.Rgt
+import ICG.Driver.Store
 
 open ICG ICG.Proto
 
 structure DS where
   tab : ICG.Driver.Tab.State := ICG.Driver.Tab.init
+  bits : ICG.Driver.Bits.State := ICG.Driver.Bits.init
+  shp : ICG.Driver.Shp.State := ICG.Driver.Shp.init
+  env : ICG.Driver.Env.State := ICG.Driver.Env.init
+  srch : ICG.Driver.Srch.State := ICG.Driver.Srch.init
+  norm : ICG.Driver.Norm.State := ICG.Driver.Norm.init
+  gen : ICG.Driver.Gen.State := ICG.Driver.Gen.init
+  rgt : ICG.Driver.Rgt.State := ICG.Driver.Rgt.init
+  store : ICG.Driver.Store.State := ICG.Driver.Store.init
 
 def stepLine (s : DS) (line : String) : DS × String :=
   match words line with
   | "tab" :: rest => let (t, out) := ICG.Driver.Tab.handle s.tab rest; ({ s with tab := t }, out)
+  | "bits" :: rest => let (t, out) := ICG.Driver.Bits.handle s.bits rest; ({ s with bits := t }, out)
+  | "shp" :: rest => let (t, out) := ICG.Driver.Shp.handle s.shp rest; ({ s with shp := t }, out)
+  | "env" :: rest => let (t, out) := ICG.Driver.Env.handle s.env rest; ({ s with env := t }, out)
+  | "srch" :: rest => let (t, out) := ICG.Driver.Srch.handle s.srch rest; ({ s with srch := t }, out)
+  | "norm" :: rest => let (t, out) := ICG.Driver.Norm.handle s.norm rest; ({ s with norm := t }, out)
+  | "gen" :: rest => let (t, out) := ICG.Driver.Gen.handle s.gen rest; ({ s with gen := t }, out)
+  | "rgt" :: rest => let (t, out) := ICG.Driver.Rgt.handle s.rgt rest; ({ s with rgt := t }, out)
+  | "store" :: rest => let (t, out) := ICG.Driver.Store.handle s.store rest; ({ s with store := t }, out)
   | _ => (s, "bad-op")
 
 partial def loop (h : IO.FS.Stream) (out : IO.FS.Stream) (s : DS) : IO Unit := do
   let line ← h.getLine
   if line.isEmpty then return ()
   let line := String.ofList (line.toList.filter (fun c => c != '\n' && c != '\r'))
-  if line == "flush" then
-    out.flush
-    loop h out s
-  else
-    let (s', o) := stepLine s line
-    out.putStrLn o
-    loop h out s'
+  let (s', o) := stepLine s line
+  out.putStrLn o
+  loop h out s'
 
 def main : IO Unit := do
   let stdin ← IO.getStdin
